@@ -31,7 +31,7 @@ ASSUMPTIONS = [
     "an integral Prefixed mantissa may be exported as int64 or as its digit string; a non-integral one must keep its digits",
     "the independent decoder (hv.pkgread.decode_param) reads int64/string x 10^prefix exactly, doubles bit-exactly",
 ]
-REQUIRED_COUNTERS = ["M-param.export_param_value", "M-param.export_prefixed", "M-param.to_scalar", "boundary.instances"]
+REQUIRED_COUNTERS = ["M-param.export_param_value", "M-param.export_prefixed", "M-param.to_scalar", "boundary.instances", "boundary.sibling-modules"]
 MIN_EVALS = 1500
 MIN_NONTRIVIAL = 1000
 
@@ -437,6 +437,71 @@ def history_probes(rec):
             rec.violation("param-value-wrong", f"R(r={text}) exported as {str(got)[:60]!r}", case={"kind": "probe", "what": "huge-exponent"})
 
 
+def sibling_cases(rec, rng, n):
+    """Several instances in ONE module (one export) whose calls are equal in value but written differently - 1000*m and 1*UNIT,
+    1.50 and 1.5, dict values 3 / 3.0 / True: every instance exports its own spelling."""
+    import hdl21 as h
+    from hdl21.prefix import Prefix
+    from .. import pkgread
+
+    L = lib()
+    P = lambda num, pre: h.Prefixed(number=Decimal(num), prefix=Prefix[pre])
+    GROUPS = [
+        [P("1000", "MILLI"), P("1", "UNIT"), P("1.0", "UNIT"), P("0.001", "KILO"), P("1.000", "UNIT")],
+        [P("1.50", "MICRO"), P("1.5", "MICRO"), P("1500", "NANO"), P("15E-1", "MICRO")],
+        [P("0", "UNIT"), P("0.0", "UNIT"), P("0", "KILO"), P("-0", "UNIT")],
+        [P("2", "KILO"), P("2000", "UNIT"), P("2E3", "UNIT"), P("0.002", "MEGA")],
+    ]
+    DICT_GROUPS = [[3, 3.0], [1, 1.0, P("1", "UNIT"), P("1000", "MILLI")], [0, 0.0, -0.0], ["1", "1.0", 1], [2.5, P("2.5", "UNIT"), P("2500", "MILLI")]]
+    for k in range(n):
+        m = h.Module(name=f"P13sib_{next(_uid)}")
+        want = {}
+        order = []
+        grp = list(rng.choice(GROUPS))
+        rng.shuffle(grp)
+        for j, v in enumerate(grp):
+            which = rng.choice(["R", "C", "Edict", "Etyped-pf"])
+            if which == "R":
+                call, field = h.R(r=v), "r"
+            elif which == "C":
+                call, field = h.C(c=v), "c"
+            elif which == "Edict":
+                call, field = L["Edict"]({"w": v}), "w"
+            else:
+                try:
+                    call, field = L["Etyped"](i=1, f=1.0, s="s", sc=1, pf=v, lit=h.Literal("z"), col=list(Color)[0]), "pf"
+                except Exception:
+                    call, field = h.R(r=v), "r"
+            conns = {pn: m.add(h.Signal(width=port.width), name=f"n{j}_{pn}") for pn, port in call.ports.items()}
+            m.add(h.Instance(of=call)(**conns), name=f"x{j}")
+            want[f"x{j}"] = (field, v)
+        dg = list(rng.choice(DICT_GROUPS))
+        rng.shuffle(dg)
+        for j, v in enumerate(dg):
+            call = L["Edict"]({"w": v, "k": "same"})
+            conns = {pn: m.add(h.Signal(width=port.width), name=f"d{j}_{pn}") for pn, port in call.ports.items()}
+            m.add(h.Instance(of=call)(**conns), name=f"y{j}")
+            want[f"y{j}"] = ("w", v)
+        case = {"kind": "siblings", "values": {i: [f, parammon.casev(v)] for i, (f, v) in want.items()}}
+        rec.case(key=jhash(case), nontrivial=True, sample=case if k % 100 == 3 else None)
+        rec.count("boundary.sibling-modules")
+        try:
+            pkg = h.to_proto(m)
+        except Exception as e:
+            rec.violation(f"param-export-raises:{type(e).__name__}", f"a module of equal-valued sibling instances: export raised {str(e)[:140]}", case=case)
+            continue
+        for pinst in pkg.modules[-1].instances:
+            field, v = want[pinst.name]
+            got = {p.name: pkgread.decode_param(p.value) for p in pinst.parameters}
+            if field not in got:
+                rec.violation("param-missing", f"sibling {pinst.name}: parameter '{field}' (given {v!r}) missing", case=case)
+                continue
+            why = parammon.value_matches(v, got[field])
+            if why:
+                rec.violation("param-value-wrong", f"instance {pinst.name} of a module whose other instances hold equal values written differently: "
+                                                   f"'{field}' given {v!r} exported as {got[field]!r}: {why}", case=case, field=field)
+
+
 def run(ctx, rec):
     parammon.attach(rec)
     rng = ctx.rng("c13")
@@ -452,6 +517,7 @@ def run(ctx, rec):
     for k in range(n * 2):
         prim_case(rec, rng, k, names[k % len(names)])
     direct_converters(rec, rng, n)
+    sibling_cases(rec, rng, max(60, n // 8))
     if not ctx.quick and ctx.shard == 0:
         from .. import suite
 
